@@ -111,6 +111,15 @@ add("C10",
     "int data may come back as float64 (equal values); mapping is not stored; legacy layout reproduced from the "
     "pre-0.90 writer.")
 
+add("C11",
+    "Hypothesis-generated fields plus complete enumeration of all small shapes; oracle = direct evaluation of the DFT "
+    "definition at the k-cell centres reported by the returned mesh and the textbook frequency formula",
+    "Generated-input search over real/complex fields, every parity mix and single-cell axes, anisotropic cells, "
+    "offsets, names, labels and mappings for all four transforms; all shapes with prod(n) <= 36 (64 thorough) are "
+    "enumerated completely. Values are compared with the definition sum f[r] exp(-2 pi i k.r) evaluated independently; "
+    "inverses, half-spectrum, DC cell, linearity, per-component action, position independence and renaming are checked.",
+    "tolerance 1e-10*N*max|f|; reference uses only numpy exp/tensordot (no FFT routines).")
+
 PENDING = {}
 
 
